@@ -69,6 +69,7 @@ IsZero(p, v) == CASE p = "MAJOR" -> v.major = 0 [] p = "MINOR" -> v.minor = 0 []
 \* node ::= [t |-> "lit", s |-> text] | [t |-> "part", p |-> NAME] | [t |-> "opt", body |-> <<node...>>]
 RECURSIVE CompileSeq(_), PartsIn(_), RenderSeq(_,_), AllZero(_,_)
 CompileNode(n) == CASE n.t = "lit" -> Lit(n.s)
+                    [] n.t = "bol" -> Bol [] n.t = "eol" -> Eol
                     [] n.t = "part" -> Grp(PartField(n.p), PartRx(n.p))
                     [] n.t = "opt" -> Opt(CompileSeq(n.body))
 CompileSeq(ns) == Cat([q \in 1..Len(ns) |-> CompileNode(ns[q])])
@@ -82,7 +83,7 @@ HasPart(P, names) == \E q \in 1..Len(PartsIn(P)) : PartsIn(P)[q] \in names
 
 \* rendering: a group (and the root) is dropped iff it contains a part and all parts in it (recursively) are zero
 AllZero(ns, v) == LET ps == PartsIn(ns) IN ps # <<>> /\ \A q \in 1..Len(ps) : IsZero(ps[q], v)
-RenderNode(n, v) == CASE n.t = "lit" -> n.s [] n.t = "part" -> Fmt(n.p, v)
+RenderNode(n, v) == CASE n.t = "lit" -> n.s [] n.t = "part" -> Fmt(n.p, v) [] n.t \in {"bol","eol"} -> <<>>
                       [] n.t = "opt" -> IF AllZero(n.body, v) \/ PartsIn(n.body) = <<>> THEN <<>> ELSE RenderSeq(n.body, v)
 RenderSeq(ns, v) == IF ns = <<>> THEN <<>> ELSE RenderNode(ns[1], v) \o RenderSeq(Tail(ns), v)
 Render(v, P) == IF AllZero(P, v) THEN <<>> ELSE RenderSeq(P, v)
